@@ -15,6 +15,8 @@ def _mk_scenarios(tier):
     for wa in (True, False):
         for m in ms:
             sc.append(('integrate', dict(m=m, wa=wa)))
+        for m in ((1, 2) if tier == 'quick' else (1, 2, 3)):
+            sc.append(('window', dict(m=m, wa=wa)))
         sc.append(('predict', dict(wa=wa)))
         for m in ((0, 2) if tier == 'quick' else (0, 1, 3)):
             sc.append(('set_pva', dict(m=m, wa=wa)))
@@ -53,6 +55,10 @@ class Scenario:
         n, cap, isz = z3.Int('n'), z3.Int('cap'), z3.Int('isz')
         self.pre = [n >= 1, cap >= n, cap <= 1000000, isz >= 1, isz <= 64]
         self.zvars = {'n': n, 'cap': cap, 'isz': isz}
+        if kind == 'window':
+            w = z3.Int(integ.WINDOW_BASE)
+            self.pre += [w >= 0, w <= 1000000]
+            self.zvars['w'] = w
 
     # ---- helpers ----------------------------------------------------------------------
     def check(self, name, ok, detail=None):
@@ -106,6 +112,25 @@ class Scenario:
         self.invariant(it, self.n + m, cells)
         self.check('get_time = latest stamp', it.get_time() == (['t_last'] + chunk.index)[-1])
         self.check('get_pva = latest row', ig._key(it.get_pva()) is ([ig.mk('row_last', 'S')] + rows)[-1])
+        return {'new_cap': it.lla.cap}
+
+    def sc_window(self, m, wa):
+        """call-position independence (the chunk-split law for a prefix of ANY length): the m rows
+        are processed as rows w .. w + m - 1 of a longer kernel call, w >= 0 symbolic; every
+        appended row must be the term a fresh one-row call produces"""
+        ig, h = self.integ, self.h
+        it = h.state(self.n, self.cap, wa)
+        cells0 = h.latest_cells(it)
+        chunk = ig.Chunk('c', m)
+        ig.WINDOW[0] = True
+        try:
+            it.integrate(chunk)
+        finally:
+            ig.WINDOW[0] = False
+        cells, rows = self.fold(cells0, chunk, wa)
+        got = [ig._key(r) for r in it.trajectory.tail.rows[1:]]
+        self.check('rows processed at call-local position w + k (any w >= 0) = rows of fresh one-row calls', got == rows)
+        self.invariant(it, self.n + m, cells)
         return {'new_cap': it.lla.cap}
 
     def sc_predict(self, wa):
@@ -266,6 +291,8 @@ class Scenario:
     def _model(self, ex):
         import z3
         small = z3.And(self.zvars['n'] <= 40, self.zvars['cap'] <= 80)
+        if 'w' in self.zvars:
+            small = z3.And(self.zvars['n'] <= 3, self.zvars['cap'] <= 4000, self.zvars['w'] <= 3000)
         m = ex.model_for(z3.And(small, self.zvars['n'] >= 3)) or ex.model_for(small) or ex.model_for()
         if m is None:
             return None
@@ -424,6 +451,8 @@ def run(run):
 def _spec(kind, params, model, new_cap, **extra):
     s = {'property': PROP, 'kind': kind, 'params': {k: (list(v) if isinstance(v, tuple) else v) for k, v in params.items()},
          'n': model['n'], 'cap': model['cap'], 'isz': model['isz'], 'expect_new_cap': new_cap, 'time_limit': 120}
+    if 'w' in model:
+        s['w'] = model['w']
     s.update(extra)
     return s
 
@@ -546,6 +575,30 @@ def _replay(spec):
             if not _same(r2.values[0], r1.values[-1]):
                 failed.append('second call does not return the previous last row first')
         new_cap = len(it.lla)
+    elif kind == 'window':
+        # the m rows as rows w .. w + m - 1 of ONE call, against the same rows in a call of their own
+        # (and against row-by-row calls); several prefix lengths around the solver's w
+        m = P.get('m', 1)
+        w0 = int(spec.get('w', 0))
+        pva0 = _pva(0, 10.0)
+        for w in sorted({w0, max(0, w0 - 1), w0 + 1, 199, 200, 255, 256, 999, 1000, 1023, 1024}):
+            inc = _increments(w + m)
+            single = ref_rows(pva0, inc)
+            it = mk(max(isz, 1), pva0)
+            it.integrate(inc.iloc[:w])
+            it.integrate(inc.iloc[w:])
+            if not _same(it.trajectory.values, single.values) or not _same(it.trajectory.index, single.index):
+                failed.append('a single call of %d rows is not bit-identical to calls of %d and %d rows (first difference at row %d)' % (
+                    w + m, w, m, int(np.nonzero(np.any(it.trajectory.values != single.values, axis=1))[0][0])))
+            rb = mk(max(isz, 1), pva0)
+            for k in range(w + m):
+                rb.integrate(inc.iloc[k:k + 1])
+            if not _same(rb.trajectory.values, single.values):
+                failed.append('a single call of %d rows is not bit-identical to row-by-row calls (first difference at row %d)' % (
+                    w + m, int(np.nonzero(np.any(rb.trajectory.values != single.values, axis=1))[0][0])))
+            if failed:
+                break
+        new_cap = None
     elif kind == 'constructor':
         it = mk(isz, _pva(0, 10.0))
         if len(it.trajectory) != 1 or it.get_time() != 10.0:
